@@ -131,7 +131,9 @@ def _sym2(E, p, c, got, n, vals, V):
         if got["k"] == "raise":
             return dict(goal=z3.Not(ok), got=got, case=case)
         res = got["items"][1]
-        return dict(goal=specs.conj([ok, specs.eqv(res["val"], z3.Select(V, i)) if res["k"] == "scalar" else False]), got=got, case=case)
+        if res["k"] == "scalar" and DT != "int64" and res.get("dtype") not in (DT, "z3", "py", None):
+            return dict(goal=False, got=got, case=case)          # an element of the array has the array's element type
+        return dict(goal=specs.conj([ok, (c14.val_eq(res["val"], z3.Select(V, i), DT) if DT.startswith("float") else specs.eqv(res["val"], z3.Select(V, i))) if res["k"] == "scalar" else False]), got=got, case=case)
     if got["k"] != "tuple":
         return dict(goal=False, got=got, case=case)
     tag = got["items"][0]["val"]
@@ -139,7 +141,11 @@ def _sym2(E, p, c, got, n, vals, V):
     if ix in ("list", "array"):
         res = got["items"][1]
         exp = [z3.Select(V, z3.If(i < 0, i + n, i)) for i in c["idx"]]
-        conds.append(specs.obs_goal(res, dict(k="array", flat=exp, shape=[len(exp)], dtype=DT)))
+        if DT.startswith("float"):          # float cells by value (one representative per run of equal values)
+            conds.append(res["k"] == "array" and res["shape"] == [len(exp)] and res["dtype"] == DT)
+            conds += [c14.val_eq(a_, b_, DT) for a_, b_ in zip(res["flat"], exp)] if res["k"] == "array" else []
+        else:
+            conds.append(specs.obs_goal(res, dict(k="array", flat=exp, shape=[len(exp)], dtype=DT)))
     elif ix in ("mask", "rlmask", "rlmask_ufunc"):
         res = got["items"][1]
         if res["k"] != "array" or len(res["shape"]) != 1:
@@ -149,7 +155,7 @@ def _sym2(E, p, c, got, n, vals, V):
         pref = z3.IntVal(0)
         for q in range(n):
             for k in range(N):
-                conds.append(z3.Implies(z3.And(c["mask"][q], pref == k), specs.eqv(res["flat"][k], vals[q])))
+                conds.append(z3.Implies(z3.And(c["mask"][q], pref == k), c14.val_eq(res["flat"][k], vals[q], DT) if DT.startswith("float") else specs.eqv(res["flat"][k], vals[q])))
             pref = pref + z3.If(c["mask"][q], 1, 0)
     elif ix == "slice":
         res = got["items"][1]
@@ -231,6 +237,7 @@ def jobs(tier, seed):
     n = 4 if q else 5
     out = [dict(ix="int", n=n), dict(ix="list", n=n, m=2 if q else 3), dict(ix="array", n=n, m=2), dict(ix="mask", n=n), dict(ix="mask", n=n, aslist=True), dict(ix="rlmask", n=n), dict(ix="rlmask_ufunc", n=3 if q else 4),
            dict(ix="windows", n=3 if q else 4, k=2), dict(ix="ellipsis", n=n),
+           dict(ix="int", n=2, dtype="float16"), dict(ix="list", n=2, m=2, dtype="float16"), dict(ix="mask", n=2, dtype="float16"), dict(ix="int", n=2, dtype="uint64"), dict(ix="list", n=2, m=2, dtype="uint64"),
            dict(ix="slice_then_all", n=3, s=2), dict(ix="slice_then_all", n=3, s=-1), dict(ix="slice_then_all", n=3, s=None)]
     for s in (1, 2, 3, -1, -2, -3) if not q else (1, 2, -1, -2, 3):
         out.append(dict(ix="slice", n=n, s=s))
